@@ -94,6 +94,9 @@ ConcStep(To, e) ==
             \* positional and whole-sequence reads walk the keys in several statements: while another client changes
             \* the deque they are not atomic (C11 promises exactly-once delivery of pops, judged at the commits)
             ELSE IF cl.op \in {"getitem", "iter", "count", "compare"} /\ cl.overlap THEN V(TRUE, Tq, "")
+            \* removal by value walks the keys too: the item it found may be taken, and an equal item moved to the other end,
+            \* by other clients during the walk - it then reports that there is none (it removed nothing: no commit)
+            ELSE IF cl.op = "remove" /\ e.ret.k = "ValueError" /\ cl.overlap THEN V(TRUE, Tq, "")
             ELSE V(FALSE, To, "C11 " \o cl.op \o " returned " \o ToJson(e.ret) \o
                               " which no contents committed during the call explain: " \o ToJson(cl.cand))
     ELSE IF e.ev = "final"
